@@ -413,10 +413,10 @@ static void camp_SEQ(Ctx& ctx, int maxlen) {
 static void camp_GROW(Ctx& ctx, size_t maxn) {
   Case c; c.campaign = "GROW"; uint64_t idx = 0;
   std::vector<size_t> ns = {1, 2, 3, 4, 5, 7, 8, 9, 15, 16, 17, 31, 33, 63, 64, 65, 100, 127, 128, 129, 255, 257, 500, 1000, 1023, 1025, 2048, 4095, 4096};
-  if (maxn > 4096) { ns.push_back(10000); ns.push_back(32768); ns.push_back(65535); ns.push_back(65537); }
+  for (size_t big : {(size_t)10000, (size_t)32768, (size_t)65535, (size_t)65537, (size_t)131073, (size_t)1048577}) if (big <= maxn) ns.push_back(big);
   for (int kind : {K_INDEFARR, K_INDEFMAP, K_BSTR, K_TSTR}) for (size_t n : ns) { if (ctx.mine(idx++) && !ctx.stop()) { c.aux[0] = (uint64_t)kind; c.aux[1] = n; c.data.clear(); ctx.exec(c); } }
   ctx.campaign_exhaustive["GROW"] = true;
-  ctx.notes["GROW"] = "1.." + std::to_string(maxn) + " insertions into each indefinite container kind; reallocation calls counted by the instrumenting allocator and bounded by 4 + 2*ceil(log2(n+1))";
+  ctx.notes["GROW"] = "1.." + std::to_string(maxn) + " insertions into each indefinite container kind; reallocation calls counted by the instrumenting allocator and bounded by 8 + 4*ceil(log2(n+1)); sizes: 1..4096 at and around every power of two, then 10000, 32768, 65535, 65537, 131073 (thorough: 1048577)";
 }
 static void camp_ALOAD(Ctx& ctx, bool thorough) {
   Case c; uint64_t idx = 0;
@@ -461,7 +461,7 @@ static void run_campaigns(Ctx& ctx) {
     if (want("HISTR")) camp_HISTR(ctx, thorough ? 3000000 : 300000, 0);
   } else if (ctx.prop == "C12") {
     if (want("SEQ")) camp_SEQ(ctx, thorough ? 6 : 5);
-    if (want("GROW")) camp_GROW(ctx, thorough ? 65537 : 4096);
+    if (want("GROW")) camp_GROW(ctx, thorough ? 1048577 : 131073);
     if (want("HISTR")) camp_HISTR(ctx, thorough ? 1000000 : 100000, 0);
   } else {
     if (want("ALOAD")) camp_ALOAD(ctx, thorough);
